@@ -222,6 +222,11 @@ func HChildKeys() {
 		return
 	}
 	check(c1, "")
+	// each key is a value of its own: extending one (a consumer appending a salt, say) leaves the others
+	for _, k := range [][]byte{c1.InitiatorToResponderEncryptionKey, c1.InitiatorToResponderIntegrityKey, c1.ResponderToInitiatorEncryptionKey} {
+		_ = append(k, 0xEE, 0xEE, 0xEE, 0xEE)
+	}
+	check(c1, ".after-append")
 	c2 := mk()
 	err = c2.GenerateKeyForChildSA(ike, append([]byte{}, nonce...))
 	vr.Assert("c08.noerr.second", err == nil)
